@@ -183,11 +183,9 @@ func (t BytesByteTuple) Map(f func(Value) (Value, error)) (Tuple, error) { //nol
 		return nil, err
 	}
 	if at, ok := at.(Number); ok {
-		if at, is := at.Int(); is {
-			if byteval, ok := byteval.(Number); ok {
-				if byteval, is := byteval.Int(); is {
-					return NewBytesByteTuple(at, byte(byteval)), nil
-				}
+		if byteval, ok := byteval.(Number); ok {
+			if u, ok := newSugarTuple(at, BytesByteAttr, byteval); ok {
+				return u, nil
 			}
 		}
 	}
